@@ -166,16 +166,16 @@ func runC15(a *A) {
 // ruleLoopMustOrExcuse: on every path through one iteration of loop l (body entry back to the header or
 // out of the loop) either an instruction accepted by must is executed or an excusing branch edge is
 // taken. Returns the blocks of an offending path, or nil.
-func loopMustOrExcuse(l *RLoop, must func(ssa.Instruction) bool, excuse func(iff *ssa.If) (onTrue, onFalse bool)) []*ssa.BasicBlock {
+func loopMustOrExcuse(l *RLoop, must func(ssa.Instruction) bool, excuse func(cond ssa.Value) (onTrue, onFalse bool)) []*ssa.BasicBlock {
 	type st struct {
-		b  *ssa.BasicBlock
-		ok bool
+		b, pred *ssa.BasicBlock
+		ok      bool
 	}
 	seen := map[st]bool{}
 	var path []*ssa.BasicBlock
 	var bad []*ssa.BasicBlock
-	var dfs func(b *ssa.BasicBlock, ok bool) bool
-	dfs = func(b *ssa.BasicBlock, ok bool) bool {
+	var dfs func(b, pred *ssa.BasicBlock, ok bool) bool
+	dfs = func(b, pred *ssa.BasicBlock, ok bool) bool {
 		if b == l.Header || !l.Blocks[b] {
 			if !ok {
 				bad = append(append([]*ssa.BasicBlock{}, path...), b)
@@ -183,10 +183,10 @@ func loopMustOrExcuse(l *RLoop, must func(ssa.Instruction) bool, excuse func(iff
 			}
 			return false
 		}
-		if seen[st{b, ok}] {
+		if seen[st{b, pred, ok}] {
 			return false
 		}
-		seen[st{b, ok}] = true
+		seen[st{b, pred, ok}] = true
 		path = append(path, b)
 		defer func() { path = path[:len(path)-1] }()
 		for _, in := range b.Instrs {
@@ -195,20 +195,32 @@ func loopMustOrExcuse(l *RLoop, must func(ssa.Instruction) bool, excuse func(iff
 			}
 		}
 		if iff, isIf := b.Instrs[len(b.Instrs)-1].(*ssa.If); isIf {
-			onT, onF := excuse(iff)
-			if dfs(b.Succs[0], ok || onT) {
+			// the condition as it reads on this path (a named boolean is resolved to the operand that
+			// decided it)
+			cond, neg := pathCond(iff, pred)
+			if k, isK := constBool(cond); isK {
+				if k != neg {
+					return dfs(b.Succs[0], b, ok)
+				}
+				return dfs(b.Succs[1], b, ok)
+			}
+			onT, onF := excuse(cond)
+			if neg {
+				onT, onF = onF, onT
+			}
+			if dfs(b.Succs[0], b, ok || onT) {
 				return true
 			}
-			return dfs(b.Succs[1], ok || onF)
+			return dfs(b.Succs[1], b, ok || onF)
 		}
 		for _, s := range b.Succs {
-			if dfs(s, ok) {
+			if dfs(s, b, ok) {
 				return true
 			}
 		}
 		return false
 	}
-	dfs(l.Body, false)
+	dfs(l.Body, nil, false)
 	return bad
 }
 
@@ -317,8 +329,8 @@ func (a *A) ruleCepAcceptingRunKept() {
 				}
 				return true
 			}
-			excuse := func(iff *ssa.If) (bool, bool) {
-				if c, pos := condCall(iff.Cond); c != nil && c.Call.StaticCallee() != nil {
+			excuse := func(cond ssa.Value) (bool, bool) {
+				if c, pos := condCall(cond); c != nil && c.Call.StaticCallee() != nil {
 					callee := c.Call.StaticCallee()
 					// hasAccept(r.states) false: the run is not a match yet
 					if callee == hasAccept && len(c.Call.Args) == 1 {
@@ -332,7 +344,7 @@ func (a *A) ruleCepAcceptingRunKept() {
 					}
 				}
 				// r.nrows > e.maxRunRows: the documented length guard
-				if bo, ok := iff.Cond.(*ssa.BinOp); ok && (bo.Op == token.GTR || bo.Op == token.LSS || bo.Op == token.GEQ || bo.Op == token.LEQ) {
+				if bo, ok := cond.(*ssa.BinOp); ok && (bo.Op == token.GTR || bo.Op == token.LSS || bo.Op == token.GEQ || bo.Op == token.LEQ) {
 					tx, ty := TermOf(bo.X, nil), TermOf(bo.Y, nil)
 					isMax := func(t *Term) bool { return t.Kind == "field" && t.Field == maxRows }
 					if isMax(tx) || isMax(ty) {
